@@ -67,6 +67,12 @@ def fmt(t):
     return "%s(%s)" % (t[0], ", ".join(fmt(x) for x in t[1:]))
 
 
+class _Thunk:
+    """a let binding that is evaluated when (and only if) it is used"""
+    def __init__(self, init, env, proj=None):
+        self.init, self.env, self.proj = init, env, proj
+
+
 class Extractor:
     """abstract interpretation of straight-line code into builder terms.
     leaf(node, env) -> term or None lets the client name leaves (tokens, pattern variables, ...);
@@ -77,6 +83,7 @@ class Extractor:
         self.leaf = leaf
         self.transparent = transparent
         self.passthrough = passthrough   # call that returns one of its args unchanged -> index of that arg
+        self.spec = None                 # spec(expr) -> literal value the expression is specialised to (e.g. the operator token), or None
 
     def _arm_checks_only(self, arm):
         b = arm["body"]
@@ -113,7 +120,16 @@ class Extractor:
             return t
         if k == "local":
             if n["id"] in env:
-                return env[n["id"]]
+                v = env[n["id"]]
+                if isinstance(v, _Thunk):
+                    t2 = self.ev(v.init, v.env, depth + 1)
+                    if v.proj is not None:
+                        if not (isinstance(t2, tuple) and t2 and t2[0] == "tuple" and len(t2) > v.proj + 1):
+                            raise Opaque(n, "destructured value is not a tuple")
+                        t2 = t2[v.proj + 1]
+                    env[n["id"]] = t2
+                    return t2
+                return v
             init = simple_let_init(self.defs, n["id"])
             if init is not None:
                 return self.ev(init, env, depth + 1)
@@ -153,9 +169,13 @@ class Extractor:
                 if s_.get("k") == "let":
                     bs = pat_bindings(s_["pat"])
                     if s_["pat"].get("k") == "pbind" and "init" in s_:
-                        env[s_["pat"]["id"]] = self.ev(s_["init"], env, depth + 1)
+                        env[s_["pat"]["id"]] = _Thunk(s_["init"], env)
                     elif "init" in s_ and self.transparent(strip_try(s_["init"])):
                         pass
+                    elif "init" in s_ and s_["pat"].get("k") == "ptuple" and all(x.get("k") in ("pbind", "pwild") for x in s_["pat"]["subs"]):
+                        for i_, x in enumerate(s_["pat"]["subs"]):
+                            if x.get("k") == "pbind":
+                                env[x["id"]] = _Thunk(s_["init"], env, i_)
                     else:
                         raise Opaque(s_, "destructuring let")
                 elif self.transparent(strip_try(s_)):
@@ -164,6 +184,8 @@ class Extractor:
                     continue  # a guard that only rejects (`if bad { report; return Err }`) does not change the value built
                 elif s_.get("k") == "match" and all(self._arm_checks_only(a) for a in s_["arms"]):
                     continue  # a dispatch whose arms only perform checks
+                elif s_.get("k") == "if" and all(self._arm_checks_only({"body": b_}) for b_ in [s_["then"]] + ([s_["else"]] if "else" in s_ else [])):
+                    continue  # a conditional block of checks
                 else:
                     raise Opaque(s_, "statement `%s`" % show(s_)[:60])
             if "tail" in n["b"]:
@@ -171,6 +193,31 @@ class Extractor:
             raise Opaque(n, "block without value")
         if k == "closure":
             raise Opaque(n, "closure")
+        if k == "match" and self.spec is not None:
+            v = self.spec(n["scrut"])
+            if v is not None:
+                for arm in n["arms"]:
+                    for alt in pat_alts(arm["pat"]):
+                        while alt.get("k") in ("pref", "pderef"):
+                            alt = alt["pat"]
+                        hit = (alt.get("k") == "plit" and alt.get("v") == v) or alt.get("k") == "pwild" or (alt.get("k") == "pbind" and "sub" not in alt)
+                        if hit:
+                            if "guard" in arm:
+                                raise Opaque(n, "guarded arm for `%s`" % v)
+                            if alt.get("k") == "pbind":
+                                env = dict(env)
+                                env[alt["id"]] = ("lit", v)
+                            return self.ev(arm["body"], env, depth + 1)
+                raise Opaque(n, "no arm for `%s`" % v)
+        if k == "if" and self.spec is not None and "else" in n:
+            c = resolve(n["cond"])
+            if c.get("k") == "binary" and c["op"] in ("==", "!="):
+                for a_, b_ in ((c["l"], c["r"]), (c["r"], c["l"])):
+                    v = self.spec(a_)
+                    lit = peel(b_)
+                    if v is not None and lit.get("k") == "lit":
+                        take_then = (lit.get("v") == v) == (c["op"] == "==")
+                        return self.ev(n["then"] if take_then else n["else"], env, depth + 1)
         if k in ("if", "match", "for", "while", "loop"):
             raise Opaque(n, "data-dependent control flow (%s)" % k)
         if k == "cast":
